@@ -195,7 +195,7 @@ def main():
     # ---- exactness: depth d-1, d, d+1 at every position --------------------------------------------------------------
     for clsname, poss in POSITIONS.items():
         for pos in poss:
-            for d in (1, 2, 3, 4):
+            for d in ((1, 2, 3, 4, 5, 6, 7, 8, 12) if thorough else (1, 2, 3, 4)):
                 for depth in (d - 1, d, d + 1, d + 3):
                     if depth < 1:
                         continue
@@ -207,9 +207,9 @@ def main():
                 data, tree = chain(clsname, pos, depth)
                 add("exact", clsname, pos[0], data, tree, 0, "ok")
     # mixed positions inside one input (random trees over NL / NM)
-    for _ in range(400 if thorough else 60):
+    for _ in range(4000 if thorough else 60):
         clsname = rng.choice(["NL", "NM", "NT"])
-        depth = rng.randint(1, 5)
+        depth = rng.randint(1, 8 if thorough else 5)
         pos = rng.choice(POSITIONS[clsname])
         data, tree = chain(clsname, pos, depth)
         # graft a second, shallower branch next to the deep one at the top level
@@ -225,7 +225,7 @@ def main():
         if clsname in ("NL", "NT") and len(data["nxt"]) == 1:
             stree["falsy"] = True
         tree = dict(tree, kids=tree["kids"] + [stree])
-        add("exact-tree", clsname, pos[0] + "+" + other_pos[0], data, tree, rng.randint(1, 5), "ok")
+        add("exact-tree", clsname, pos[0] + "+" + other_pos[0], data, tree, rng.randint(1, 9 if thorough else 5), "ok")
     # cyclic inputs: always rejected under a limit
     for clsname, poss in POSITIONS.items():
         for pos in poss:
